@@ -404,7 +404,7 @@ type c18MateCase struct {
 	Fb, Fn     float64 // bolt / nut tolerance as a fraction of the pitch
 	P          float64 // pitch (native unit of the pair)
 	Desc       map[string]any
-	Evals      int // points evaluated (flushed to c.Eval in batches: the counter is mutex-protected)
+	Evals      int    // points evaluated (flushed to c.Eval in batches: the counter is mutex-protected)
 	Key        string // known-finding key of the point being judged ("" = none)
 }
 
